@@ -98,8 +98,8 @@ RsFlush(s) ==
     IF Len(s.wbuf) < s.eunit THEN RawR(TRUE, 0, s)
     ELSE LET x == ApplyFn(s.enc, SubSeq(s.wbuf, 1, s.eunit)) IN
          IF ~x.ok THEN RawR(FALSE, 0, s)
-         ELSE LET w == RawWrite(s.sub, x.v) IN           \* the count returned by the substream is ignored
-              IF ~w.ok THEN RawR(FALSE, 0, [s EXCEPT !.sub = w.s])
+         ELSE LET w == RawWrite(s.sub, x.v) IN
+              IF ~w.ok \/ w.v # Len(x.v) THEN RawR(FALSE, 0, [s EXCEPT !.sub = w.s])      \* raised, or wrote short
               ELSE RsFlush([s EXCEPT !.sub = w.s, !.wbuf = SubSeq(@, s.eunit + 1, Len(@))])
 
 \* seek(off, whence): v = what seek() returns
